@@ -34,14 +34,15 @@ static gbuf galloc(size_t size) { gbuf g; size_t pages = (size + PAGE - 1) / PAG
 static void gfree(gbuf* g) { munmap(g->map, g->mapSize); }
 
 /* ---- decode-path statistics from the guarded hook in ZSTD_decompressBlock_internal */
-static unsigned hk_prefetch, hk_split, hk_litInDst, hk_litExtra, hk_blocks; static unsigned char hk_seen[128];
+static unsigned hk_prefetch, hk_split, hk_litInDst, hk_litExtra, hk_blocks; static unsigned char hk_seen[128]; static int hk_mute;
 #ifdef ZSTD_VERIF_TRACE
 static void hook_cb(const char* ev, const void* ctx, long long a, long long b, long long c, long long d, long long e, long long f) {
     (void)ctx; (void)c; (void)d; (void)e; (void)f;
     if (strcmp(ev, "dBlock")) return;
     hk_blocks++; if (a) hk_prefetch++; if (b == 2) hk_split++; else if (b == 0) hk_litInDst++; else hk_litExtra++;
     /* distinct (prefetch, literal buffer location, nbSeq > 8, litSize > 64 KiB, history > 16 MiB, long offsets) tuples of this frame */
-    { unsigned key = (unsigned)((a ? 1 : 0) | ((b & 3) << 1) | ((c > 8) << 3) | ((d > 65536) << 4) | ((e ? 1 : 0) << 5) | ((f ? 1 : 0) << 6)); hk_seen[key & 127] = 1; }
+    /* (not for the context that is reused across frames: its cold-dictionary flag legitimately survives a frame without compressed blocks) */
+    if (!hk_mute) { unsigned key = (unsigned)((a ? 1 : 0) | ((b & 3) << 1) | ((c > 8) << 3) | ((d > 65536) << 4) | ((e ? 1 : 0) << 5) | ((f ? 1 : 0) << 6)); hk_seen[key & 127] = 1; }
 }
 #endif
 
@@ -246,8 +247,8 @@ static void do_frame(const finfo* fi, int idx) {
         if (contentSize > ((size_t)8 << 20) && (k == 3 || k == 5)) continue;        /* (byte-wise feeding of very large frames: skipped) */
         if (k == 3 && frameSize > 300000) continue;
         if (k == 12 && contentSize > ((size_t)8 << 20)) continue;
-        g_staticExact = 1;
-        r = run_path(k, frame, frameSize, out, cap, fi->seed + (unsigned)k, &stall, &over); npaths++;
+        g_staticExact = 1; hk_mute = (k == 9);
+        r = run_path(k, frame, frameSize, out, cap, fi->seed + (unsigned)k, &stall, &over); npaths++; hk_mute = 0;
         if (ZSTD_isError(r) || r != contentSize || memcmp(out, content, contentSize) || over) { if (!bad) { g_badPath = pathNames[k]; snprintf(g_badErr, sizeof(g_badErr), "%s", ZSTD_isError(r) ? ZSTD_getErrorName(r) : over ? "pos beyond size" : r != contentSize ? "wrong size" : "wrong bytes"); } bad++; } }
     { unsigned key; for (key = 0; key < 128; key++) if (hk_seen[key]) fprintf(T, "{\"e\":\"dblk\",\"prefetch\":%u,\"loc\":%u,\"nseqBig\":%u,\"litBig\":%u,\"histBig\":%u,\"longOff\":%u,\"dict\":%d}\n", key & 1, (key >> 1) & 3, (key >> 3) & 1, (key >> 4) & 1, (key >> 5) & 1, (key >> 6) & 1, g_dict != NULL); }
     fprintf(T, "{\"e\":\"frame\",\"family\":\"%s\",\"seed\":%u,\"idx\":%d,\"accepted\":true,\"size\":%zu,\"csize\":%zu,\"blocks\":%d,\"fcs\":%d,\"single\":%d,\"csum\":%d,\"wexp\":%u,\"wmant\":%u,\"npaths\":%d,\"bad\":%d,\"badPath\":\"%s\",\"badErr\":\"%s\","
